@@ -130,10 +130,36 @@ def expData (vars : List Var) (rows : List (Nat × List V)) : List Var × List (
 
 def nodalPairs (m : Mesh V) : List (Nat × List V) := (m.nodes.map Prod.fst).zip m.nodalRows
 
+def elemPairs (m : Mesh V) : List (Nat × List V) := (elemIds m.blocks).zip m.elemRows
+
 def expected (m : Mesh V) : Read V :=
   ⟨m.nodes, groupByType (written m.blocks) allTypes,
    (expData m.nodalVars (nodalPairs m)).1, (expData m.nodalVars (nodalPairs m)).2,
-   (expData m.elemVars m.elemRows).1, (expData m.elemVars m.elemRows).2⟩
+   (expData m.elemVars (elemPairs m)).1, (expData m.elemVars (elemPairs m)).2⟩
+
+theorem length_insertIdAsc (i : Nat) (l : List Nat) : (insertIdAsc i l).length = l.length + 1 := by
+  induction l with
+  | nil => rfl
+  | cons a t ih => simp only [insertIdAsc]; split <;> simp [ih]
+
+theorem length_sortIds (l : List Nat) : (sortIds l).length = l.length := by
+  induction l with
+  | nil => rfl
+  | cons a t ih => simp [sortIds, length_insertIdAsc] at ih ⊢; exact ih
+
+theorem length_elemIds (blocks : List (Nat × List Elem)) :
+    (elemIds blocks).length = (blocks.map fun b => b.2.length).sum := by
+  have hgen : ∀ bs : List (Nat × List Elem),
+      (sortIds (bs.flatMap fun b => b.2.map Elem.id)).length = (bs.map fun b => b.2.length).sum := by
+    intro bs
+    rw [length_sortIds]
+    induction bs with
+    | nil => rfl
+    | cons b t ih => simp [List.flatMap_cons, ih]
+  unfold elemIds
+  split
+  · simp
+  · exact hgen _
 
 theorem vars_ne_nil_of_sumW {vars : List Var} (h : sumW vars ≠ 0) : 1 ≤ vars.length := by
   cases vars with
@@ -154,12 +180,14 @@ theorem read_write (m : Mesh V)
   set N : List (Line V) := m.nodes.map nodeLine with hNdef
   set E : List (Line V) := elemLines m with hEdef
   set DN : List (Line V) := dataBlock m.nodalVars (nodalPairs m) with hDN
-  set DE : List (Line V) := dataBlock m.elemVars m.elemRows with hDE
+  set DE : List (Line V) := dataBlock m.elemVars (elemPairs m) with hDE
+  have hEP : (elemPairs m).length = nElem m := by
+    simp only [elemPairs, List.length_zip, length_elemIds, hE, nElem, Nat.min_self]
   have hNl : N.length = m.nodes.length := by simp [hNdef]
   have hEl : E.length = nElem m := by rw [hEdef, length_elemLines]
   have hpairs : (nodalPairs m).length = m.nodes.length := by simp [nodalPairs, hN]
   have hw : write m = [H] ++ (N ++ (E ++ (DN ++ DE))) := by
-    simp [write, hH, hNdef, hEdef, hDN, hDE, nodalPairs]
+    simp [write, hH, hNdef, hEdef, hDN, hDE, nodalPairs, elemPairs]
   have hhead : (write m)[0]? = some H := by rw [hw]; rfl
   have hnodes : ((write m).drop 1).take m.nodes.length = N := by
     rw [hw]; exact seg [H] N _ 1 _ rfl hNl
@@ -180,15 +208,15 @@ theorem read_write (m : Mesh V)
       (kN = if sumW m.nodalVars = 0 then 0 else m.nodalVars.length) →
       readDataBlock (write m) (m.nodes.length + nElem m + 1 + kN + (min 1 kN) * (m.nodes.length + 1))
         (m.nodes.length + 1 + nElem m + 1 + (min 1 (sumW m.nodalVars)) * (kN + m.nodes.length + 1)) (nElem m)
-        = some (m.elemVars, m.elemRows, m.elemVars.length) := by
+        = some (m.elemVars, elemPairs m, m.elemVars.length) := by
     intro h0 kN hk
     have hfile : write m = ((([H] ++ N) ++ E) ++ DN) ++ (DE ++ []) := by rw [hw]; simp
-    rw [hfile, hDE, ← hE]
+    rw [hfile, hDE, ← hEP]
     by_cases hz : sumW m.nodalVars = 0
     · have hDNnil : DN = [] := by simp [hDN, dataBlock, hz]
       simp only [hz, if_true] at hk
       subst hk
-      apply readDataBlock_spec _ [] m.elemVars m.elemRows h0
+      apply readDataBlock_spec _ [] m.elemVars (elemPairs m) h0
       · simp [hNl, hEl, hDNnil]; omega
       · simp [hNl, hEl, hDNnil, hz]; omega
     · have hlen : DN.length = 1 + m.nodalVars.length + m.nodes.length := by
@@ -198,7 +226,7 @@ theorem read_write (m : Mesh V)
       subst hk
       have hmin1 : min 1 m.nodalVars.length = 1 := by omega
       have hmin2 : min 1 (sumW m.nodalVars) = 1 := by omega
-      apply readDataBlock_spec _ [] m.elemVars m.elemRows h0
+      apply readDataBlock_spec _ [] m.elemVars (elemPairs m) h0
       · simp [hNl, hEl, hlen, hmin1]; omega
       · simp [hNl, hEl, hlen, hmin2]; omega
   have hmapE : E.mapM readElem = some (written m.blocks) := by
